@@ -116,6 +116,10 @@ pub trait IVP {
     /// where `dim` is the length of `y`. The user can fill the matrix via Index/IndexMut,
     /// e.g., `m[(row, col)] = value`.
     fn mass(&self, m: &mut Matrix) {
-        Matrix::identity(m.nrows());
+        if !matches!(m.storage, MatrixStorage::Identity) {
+            for i in 0..m.nrows() {
+                m[(i, i)] = 1.0;
+            }
+        }
     }
 }
